@@ -2,7 +2,21 @@
 """package_seed.py <id> <worktree> <property> <crate> : copies a confirmed seeded change into /verif/seeded/<id>/ and records which checks catch it"""
 import sys, os, json, shutil, subprocess, re
 sid, wt, prop, crate = sys.argv[1:5]
-extra_props = sys.argv[5:]
+# optional: --base path@commit  (the seeded change was written against an older version of that file, since repaired by a fix: commit;
+# the checks are run with that version of the file checked out and the patch applied on top)
+base_files = {}
+rest = []
+args = sys.argv[5:]
+i = 0
+while i < len(args):
+    if args[i] == '--base':
+        f, c = args[i + 1].split('@')
+        base_files[f] = c
+        i += 2
+    else:
+        rest.append(args[i])
+        i += 1
+extra_props = rest
 dst = os.path.join('/verif/seeded', sid)
 os.makedirs(dst, exist_ok=True)
 so = os.path.join(wt, 'seed_out')
@@ -18,6 +32,8 @@ failed_tests = re.findall(r'^test (\S+) \.\.\. FAILED', log, re.M)
 # run the checks against the patch
 verdicts = {}
 assert subprocess.run(['git', '-C', '/repo', 'status', '--porcelain'], capture_output=True, text=True).stdout.strip() == ''
+for f, c in base_files.items():
+    subprocess.run(['git', '-C', '/repo', 'checkout', c, '--', f], check=True)
 subprocess.run(['git', '-C', '/repo', 'apply', os.path.join(dst, 'patch.diff')], check=True)
 try:
     for p in [prop] + extra_props:
@@ -25,13 +41,14 @@ try:
         keys = re.findall(r'key: (.*)', r.stdout)
         verdicts[p] = {'exit': r.returncode, 'violation_keys': keys}
 finally:
-    subprocess.run(['git', '-C', '/repo', 'checkout', '--', '.'], check=True)
+    subprocess.run(['git', '-C', '/repo', 'checkout', 'HEAD', '--', '.'], check=True)
 head = subprocess.run(['git', '-C', '/repo', 'log', '-1', '--format=%h'], capture_output=True, text=True).stdout.strip()
 notes = open(os.path.join(dst, 'notes.md')).read()
 meta = {
     'id': sid, 'property': prop, 'origin': 'independent sub-agent given only the property text and a scratch worktree',
     'base_commit_of_worktree': subprocess.run(['git', '-C', wt, 'log', '-1', '--format=%h'], capture_output=True, text=True).stdout.strip(),
     'repo_head_when_checked': head,
+    'base_files': base_files,
     'needs_to_manifest': notes.split('\n\n')[0][:600],
     'confirmed_by_me': {
         'demo_with_patch_exit': rc('demo_with_patch_rc'), 'demo_without_patch_exit': rc('demo_without_patch_rc'),
